@@ -952,6 +952,9 @@ fn gen_vprogram(rng: &mut Rng) -> Vec<String> {
                 }
             }
         };
+        if std::env::var_os("C10_VERBOSE").is_some() {
+            eprintln!("GEN {:?} + {l}", lines);
+        }
         m.apply(&l, &mut scratch);
         lines.push(l);
     }
